@@ -14,12 +14,14 @@ import (
 	"errors"
 	"fmt"
 	"io"
+	"io/fs"
 	"log"
 	"os"
 	"os/exec"
 	"path/filepath"
 	"sort"
 	"strings"
+	"syscall"
 
 	"github.com/benoitkugler/gomacro/generator"
 	"github.com/benoitkugler/gomacro/verifsim"
@@ -48,6 +50,11 @@ type params struct {
 	Entry     string            `json:"entry"` // formatfile | saveoutputs
 	Callers   [][]request       `json:"callers"`
 	SwitchDen int               `json:"switch_den"` // preempt with probability 1/SwitchDen at each yield
+	// FailMode says how a failing formatter run fails: "exit" = the process
+	// runs and exits non-zero (*exec.ExitError), "start" = it cannot be
+	// started at all (*exec.Error / *fs.PathError: removed after the probe,
+	// bad interpreter, permission)
+	FailMode string `json:"fail_mode"`
 }
 
 type c20 struct{}
@@ -98,6 +105,7 @@ func (c20) Generate(env *kernel.Env, r *kernel.Rand, index int) any {
 		n = r.Range(2, 3)
 	}
 	p.SwitchDen = kernel.Pick(r, []int{1, 1, 2, 3, 6})
+	p.FailMode = kernel.Pick(r, []string{"exit", "exit", "start"})
 	// swarm: some runs hammer one format (maximal contention on one cache slot)
 	focus := -1
 	if r.Chance(1, 2) {
@@ -183,6 +191,21 @@ func (w *world) classify(name string, args []string) (tool, kind, file string) {
 	return tool, kind, file
 }
 
+var cachedExitErr error
+
+// realExitError returns a genuine *exec.ExitError (obtained once from a real
+// `sh -c "exit 2"`), so that code inspecting the error type sees what a
+// failing formatter process produces.
+func realExitError() error {
+	if cachedExitErr == nil {
+		cachedExitErr = exec.Command("/bin/sh", "-c", "exit 2").Run()
+		if cachedExitErr == nil {
+			cachedExitErr = exitErr{2}
+		}
+	}
+	return cachedExitErr
+}
+
 type exitErr struct{ code int }
 
 func (e exitErr) Error() string { return fmt.Sprintf("exit status %d", e.code) }
@@ -218,8 +241,12 @@ func (w *world) exec(name string, args []string, dir string) ([]byte, error) {
 		w.out.Fault("tool_probe_fails")
 		return nil, exitErr{1}
 	case kind == "run" && (st == runFails || st == probeFails):
+		if w.p.FailMode == "start" {
+			w.out.Fault("tool_run_cannot_start")
+			return nil, &fs.PathError{Op: "fork/exec", Path: "/usr/bin/" + tool, Err: syscall.ENOENT}
+		}
 		w.out.Fault("tool_run_fails")
-		return []byte("syntax error"), exitErr{2}
+		return []byte("syntax error"), realExitError()
 	}
 	if kind == "run" {
 		w.formatted[file]++
